@@ -355,6 +355,12 @@ def decEv : SExp → Option Pyham.Sax.Ev
   | .list [.atom "prop", .str n, .str v] => some (.prop n v)
   | _ => none
 
+def decDocEv : SExp → Option Pyham.Sax.DocEv
+  | .list [.atom "sp", .str n] => some (.spStart n)
+  | .list (.atom "gene" :: .str i :: vals) => some (.gene { id := i, xrefs := (strs vals).map fun v => ("x", v) })
+  | .list [.atom "/sp"] => some .spEnd
+  | e => (decEv e).map .grp
+
 def obsS (b : Pyham.Sax.Obs) : String :=
   toString b.depth ++ "," ++ (if b.skipping then "1" else "0") ++ "," ++ (match b.inPG with | some k => toString k | none => "-") ++ "," ++ toString b.nframes ++ ":" ++
     "|".intercalate (b.frames.map fun f => toString f.1 ++ "/" ++ toString f.2.1 ++ "/" ++ toString f.2.2)
@@ -424,6 +430,21 @@ def runQuery (T : STree) (nm : Naming) (inp : Input) (H? : Option Ham) (q : SExp
     let fl : HogFilter := match flt with | .list (.atom "ids" :: r) => some (strs r) | _ => none
     let keepG : String → Bool := match keep with | .list (.atom "ids" :: r) => (strs r).contains | _ => fun _ => true
     let events := evs.filterMap decEv
+    let devents := evs.filterMap decDocEv
+    if devents.any (fun | .grp _ => false | _ => true) then
+      -- document-level trace: the <species> / <gene> calls are part of the recorded stream (in the order of the file)
+      let r := Pyham.Sax.dstates T nm keepG fl devents {}
+      let cells := (List.zip devents r.1).map fun (e, d) =>
+        match e with
+        | .grp _ => obsS d.ms.obs
+        | _ => "S" ++ (if d.cur.isNone then "1" else "0") ++ "," ++ toString (dedup (d.genes.map (·.id))).length
+      let o := o.put "saxtr" (";".intercalate cells ++ "#" ++ (match r.2 with | none => "ok" | some e => "err:" ++ e.toStr))
+      let mine := Pyham.Sax.eventsL inp.groups
+      let decl := devents.filterMap fun | .spStart n => some ("sp:" ++ n) | .gene g => some ("g:" ++ g.id) | .spEnd => some "/sp" | .grp _ => none
+      let declMine := (Pyham.Sax.spEvents inp.species).filterMap fun | .spStart n => some ("sp:" ++ n) | .gene g => some ("g:" ++ g.id) | .spEnd => some "/sp" | .grp _ => none
+      -- (species sections written after the groups section come later in the stream than in the case's list: compared as multisets)
+      o.put "saxev" (if (events == mine || (r.2.isSome && events.isPrefixOf mine)) && (r.2.isSome || sortS decl == sortS declMine) then "1" else "0")
+    else
     match declareSpecies T nm keepG inp.species [] with
     | .error e => o.put "saxtr" ("species:" ++ e.toStr)
     | .ok genes =>
@@ -435,8 +456,11 @@ def runQuery (T : STree) (nm : Naming) (inp : Input) (H? : Option Ham) (q : SExp
   | .list (.atom "saxf" :: hq :: eq :: iq :: evs), _ =>
     -- the calls made to the FIRST-pass parser object of a filtered load, replayed through Sax.fstep
     let f := decFilter [hq, eq, iq]
-    let events := evs.filterMap decEv
-    let r := Pyham.Sax.ftrace f events { gids := filterGenes f inp.species }
+    let devents := evs.filterMap decDocEv
+    -- (the <gene> calls are in the recorded stream, in the order of the file: a species section written after the groups
+    -- section selects its genes after the groups were read)
+    let r := if devents.any (fun | .grp _ => false | _ => true) then Pyham.Sax.fdtrace f devents { gids := [] }
+             else Pyham.Sax.ftrace f (evs.filterMap decEv) { gids := filterGenes f inp.species }
     o.put "saxftr" (";".intercalate (r.1.map fun b => toString b.1 ++ "," ++ toString b.2.1 ++ "," ++ toString b.2.2.1 ++ "," ++
         toString b.2.2.2.1 ++ "," ++ (if b.2.2.2.2 then "1" else "0")) ++ "#" ++ (match r.2 with | none => "ok" | some e => "err:" ++ e.toStr))
   | .list [.atom "oma"], _ =>
